@@ -178,40 +178,60 @@ def run(facts, rep, tier):
                         rows.append((e[2][0][1], e[2][1][1]))
                 if len(rows) == len(s["rv"]["ops"]) and all(isinstance(x, float) for x, _ in rows):
                     table, holder = rows, b
-    if table is None:
-        raise Broken("C08 anchor: NL boundary table not found in MIR constants")
+    # (a) semantic: the latitude -> NL function evaluated abstractly on every zone interval (covers all latitudes except a
+    #     1e-6 degree neighbourhood of each boundary), whatever its implementation (scan, binary search, ...)
+    from ..absint import k3 as K3
+    from ..absint.domain import FloatV
+    from ..cfg import call_graph, reachable_bodies
+    upd = [b for b in facts.bodies.values() if b.name.endswith("update_position") and b.kind != "promoted"]
+    reach = reachable_bodies(facts, [b.name for b in upd], call_graph(facts)) if upd else set()
+    nlf = [facts.bodies[n] for n in reach if facts.bodies[n].arg_count == 1 and facts.bodies[n].locals[1]["ty"]["s"] == "f64"
+           and facts.bodies[n].locals[0]["ty"]["s"] == "i32"]
+    if len(nlf) != 1:
+        raise Broken("C08 anchor: latitude->NL function not unique (%d candidates)" % len(nlf))
+    nlf = nlf[0]
+    bnds = [(nl_, 87.0 if nl_ == 2 else nl_boundary(nl_)) for nl_ in range(59, 1, -1)]
+    zones = []
+    lo = 0.0
+    for nl_, b in bnds:
+        zones.append((nl_, lo, b))
+        lo = b
+    zones.append((1, 87.0, 90.0))
+    eps = 1e-6
+    badz = []
+    nz = 0
+    for nl_, zlo, zhi in zones:
+        for sgn in (1, -1):
+            a, b = (zlo + eps, zhi - eps) if sgn == 1 else (-(zhi - eps), -(zlo + eps))
+            if nl_ == 59 and sgn == 1:
+                a = 0.0
+            I, v, st = K3.run_fn(facts, nlf.name, lambda I, st, a=a, b=b: [FloatV(a, b, frozenset(), ("lat",))], "K3 NL zone %d" % nl_)
+            nz += 1
+            ok = isinstance(v, IntV) and v.is_const() and v.lo == nl_
+            rep.oblige(ok, ("zone", nl_, sgn))
+            if not ok:
+                badz.append((nl_, a, b, v, sorted(set(w[1] for w in I.warnings))[:2]))
+    rep.instances("R08.5", nz, floor=118, what="latitude zone intervals evaluated abstractly (59 zones x 2 hemispheres)")
+    rep.sample({"rule": "R08.5", "fn": nlf.name, "zones": nz, "bad": len(badz)})
+    for nl_, a, b, v, w in badz[:3]:
+        rep.add(Finding("R08.5", "NL(lat) wrong or not decidable in zone NL=%d" % nl_,
+                        "for every latitude in [%.6f, %.6f] NL must be %d; the function yields %r %s" % (a, b, nl_, v, ("(unmodelled: %s)" % w) if w else ""), nlf.loc()))
+    # (b) table audit, when the function keeps its boundaries as a constant (boundary, NL) table
     bad = []
-    for i, (bnd, nl) in enumerate(table):
-        exp_nl = 59 - i
-        if nl != exp_nl:
-            bad.append("row %d has NL %s (expected %d)" % (i, nl, exp_nl))
-            continue
-        want = 87.0 if nl == 2 else nl_boundary(nl)
-        if abs(bnd - want) > 1e-7:
-            bad.append("NL %d boundary %.8f (expected %.8f)" % (nl, bnd, want))
-    if len(table) != 58:
-        bad.append("%d rows (expected 58)" % len(table))
-    if any(table[i][0] >= table[i + 1][0] for i in range(len(table) - 1)):
-        bad.append("not strictly increasing")
-    rep.oblige(not bad, ("nl-table",))
-    rep.instances("R08.5", len(table), floor=50, what="NL table rows")
-    rep.sample({"rule": "R08.5", "fn": holder.name, "rows": len(table), "first": table[0], "last": table[-1]})
-    for x in bad[:4]:
-        rep.add(Finding("R08.5", "NL table: %s" % x.split("(")[0].strip(), "NL table of %s: %s" % (holder.name, x), holder.loc()))
-    # comparison operator and default
-    lts = [s for _, _, s in iter_stmts(holder) if s["k"] == "assign" and s["rv"]["k"] == "bin" and s["rv"]["lty"] == "f64"]
-    ops = sorted(set(s["rv"]["op"] for s in lts))
-    ok = ops == ["Lt"]
-    rep.oblige(ok, ("nl-op",))
-    if not ok:
-        rep.add(Finding("R08.5", "NL lookup compares with %s" % ops, "the NL lookup must use `lat < boundary` (found %s)" % ops, holder.loc()))
-    consts = [s for _, _, s in iter_stmts(holder) if s["k"] == "assign" and s["place"]["local"] == 0 and s["rv"]["k"] == "use" and "const" in s["rv"]["x"]]
-    dflt = [int(s["rv"]["x"]["const"]["int"]) for s in consts if "int" in s["rv"]["x"]["const"]]
-    ok = dflt == [1]
-    rep.oblige(ok, ("nl-default",))
-    if not ok:
-        rep.add(Finding("R08.5", "NL default %s" % dflt, "above the last boundary NL must be 1 (found %s)" % dflt, holder.loc()))
-
+    if table is not None:
+        for i, (bnd, nl) in enumerate(table):
+            exp_nl = 59 - i
+            if nl != exp_nl:
+                bad.append("row %d has NL %s (expected %d)" % (i, nl, exp_nl))
+                continue
+            want = 87.0 if nl == 2 else nl_boundary(nl)
+            if abs(bnd - want) > 1e-7:
+                bad.append("NL %d boundary %.8f (expected %.8f)" % (nl, bnd, want))
+        if len(table) != 58:
+            bad.append("%d rows (expected 58)" % len(table))
+        rep.oblige(not bad, ("nl-table",))
+        for x in bad[:4]:
+            rep.add(Finding("R08.5", "NL table: %s" % x.split("(")[0].strip(), "NL table of %s: %s" % (holder.name, x), holder.loc()))
     # ---- R08.7 observer wiring
     n7 = 0
     for st in field_stores(facts, "Plane", "distance_from_observer"):
